@@ -366,21 +366,21 @@ Proof. rewrite (fmul_comm (of_bits 4616189618054758400)). exact roundtrip_subnor
 
 (* ---- non-vacuity of the knot_float theorems: a concrete polynomial and knot satisfy `safe` ---- *)
 Example C07_Poly0_knot_hypotheses_hold : safe (map of_bits [4607632778762754458; 4610334938539176755; 13839786834890902733]%Z) e_knot0.
-Proof. apply safeb_sound; vm_compute; reflexivity. Qed.
+Proof. apply safe1_sound; vm_compute; reflexivity. Qed.
 Example C07_Poly1_knot_hypotheses_hold : safe (map of_bits [4607632778762754458; 13835733595226269286; 4610334938539176755; 13839786834890902733]%Z) e_knot1.
-Proof. apply safeb_sound; vm_compute; reflexivity. Qed.
+Proof. apply safe1_sound; vm_compute; reflexivity. Qed.
 Example C07_Poly2_knot_hypotheses_hold : safe (map of_bits [4607632778762754458; 13835733595226269286; 4604480259023595110; 4610334938539176755; 13839786834890902733]%Z) e_knot2.
-Proof. apply safeb_sound; vm_compute; reflexivity. Qed.
+Proof. apply safe1_sound; vm_compute; reflexivity. Qed.
 Example C07_Poly3_knot_hypotheses_hold : safe (map of_bits [4607632778762754458; 13835733595226269286; 4604480259023595110; 4615964438073389875; 4610334938539176755; 13839786834890902733]%Z) e_knot3.
-Proof. apply safeb_sound; vm_compute; reflexivity. Qed.
+Proof. apply safe1_sound; vm_compute; reflexivity. Qed.
 Example C07_Poly4_knot_hypotheses_hold : safe (map of_bits [4607632778762754458; 13835733595226269286; 4604480259023595110; 4615964438073389875; 13825150136101948621; 4610334938539176755; 13839786834890902733]%Z) e_knot4.
-Proof. apply safeb_sound; vm_compute; reflexivity. Qed.
+Proof. apply safe1_sound; vm_compute; reflexivity. Qed.
 Example C07_Poly5_knot_hypotheses_hold : safe (map of_bits [4607632778762754458; 13835733595226269286; 4604480259023595110; 4615964438073389875; 13825150136101948621; 4563407430421976187; 4610334938539176755; 13839786834890902733]%Z) e_knot5.
-Proof. apply safeb_sound; vm_compute; reflexivity. Qed.
+Proof. apply safe1_sound; vm_compute; reflexivity. Qed.
 Example C07_Poly6_knot_hypotheses_hold : safe (map of_bits [4607632778762754458; 13835733595226269286; 4604480259023595110; 4615964438073389875; 13825150136101948621; 4563407430421976187; 4635168068359474381; 4610334938539176755; 13839786834890902733]%Z) e_knot6.
-Proof. apply safeb_sound; vm_compute; reflexivity. Qed.
+Proof. apply safe1_sound; vm_compute; reflexivity. Qed.
 Example C07_Poly7_knot_hypotheses_hold : safe (map of_bits [4607632778762754458; 13835733595226269286; 4604480259023595110; 4615964438073389875; 13825150136101948621; 4563407430421976187; 4635168068359474381; 13841250504769798144; 4610334938539176755; 13839786834890902733]%Z) e_knot7.
-Proof. apply safeb_sound; vm_compute; reflexivity. Qed.
+Proof. apply safe1_sound; vm_compute; reflexivity. Qed.
 
 (* ... and of the one-ulp round trip: c = 1.1, divisor 3.0 *)
 Example C07_roundtrip_hypotheses_hold :
@@ -389,8 +389,9 @@ Example C07_roundtrip_hypotheses_hold :
   noover (B2R (fdiv c n) * B2R n).
 Proof.
   cbv zeta. split; [reflexivity|]. split; [reflexivity|].
-  assert (S : safe (map of_bits [4607632778762754458]%Z) (Mul (Div (Var 0) (Lit 4613937818241073152)) (Lit 4613937818241073152))) by (apply safeb_sound; vm_compute; reflexivity).
-  cbn in S. destruct S as ((_ & _ & _ & Hu & Ho) & _ & _ & Ho2). unfold litR in *. tauto.
+  assert (S : safe (map of_bits [4607632778762754458]%Z) (Mul (Div (Var 0) (Lit 4613937818241073152)) (Lit 4613937818241073152))) by (apply safe1_sound; vm_compute; reflexivity).
+  unfold safe in S. cbn [safe_gen] in S. destruct S as ((_ & _ & _ & Hu & Ho) & _ & _ & Ho2).
+  unfold fev in *. cbn [eval map nth FOps0 FOps FOpsG o_div o_lit o_default] in *. unfold litR in *. tauto.
 Qed.
 
 Example C07_example :
